@@ -176,6 +176,95 @@ def failing_subproject(name: str, marker: str, stage: str, via: str) -> T.Tuple[
     return files, line + use
 
 
+# ------------------------------------------------------------------------------------------------
+# Every documented way a target becomes (or stops being) built by default.
+BUILD_TARGET_FUNCS = [('executable', 'exe'), ('static_library', 'static'), ('shared_library', 'shared'),
+                      ('shared_module', 'shared'), ('library', 'library'), ('both_libraries', 'both')]
+TRI = [None, True, False]
+
+
+def documented_default(func: str, build_by_default: T.Optional[bool], install: T.Optional[bool],
+                       build_always: T.Optional[bool] = None) -> T.Optional[bool]:
+    """Whether the reference manual says the target is built by default (None = the documents do not decide).
+
+    custom_target (docs/yaml/functions/custom_target.yaml): build_by_default "The default value is `false`.
+    (since 0.50.0) If `build_by_default` is explicitly set to false, `install` will no longer override it.  If
+    `build_by_default` is not set, `install` will still determine its default."  build_always (deprecated):
+    "Equivalent to setting both `build_always_stale` and `build_by_default` to true."  build_always_stale says
+    nothing about being built by default.
+    Build targets (docs/yaml/functions/_build_target_base.yaml): "The default value is `true` for all built
+    target types."  What install: true does to an explicit build_by_default: false is not documented there."""
+    if func == 'custom_target':
+        if build_by_default is not None:
+            if build_always and not build_by_default:
+                return None      # "equivalent to build_by_default: true" next to an explicit false: undecided
+            return build_by_default
+        if build_always:
+            return True
+        return bool(install)
+    if build_by_default is None or build_by_default:
+        return True
+    if install:
+        return None
+    return False
+
+
+def _kw_bool(name: str, v: T.Optional[bool]) -> T.List[str]:
+    return [] if v is None else [f"{name}: {'true' if v else 'false'}"]
+
+
+def default_matrix(prefix: str, sp: str, d: str, build_target_cells: T.Sequence[T.Tuple[str, str, T.Optional[bool], T.Optional[bool]]],
+                   ) -> T.Tuple[T.List[str], T.List[dict]]:
+    """meson.build lines + target descriptions for one directory: every custom_target combination of
+    build_by_default x install x build_always_stale (+ the deprecated build_always), single and multi output, and
+    the given (func, kind, build_by_default, install) build-target cells.  Every target is a leaf: nothing else
+    uses it, so only its own flag can bring it into `all`.  Needs `py`, m.c and l.c in the directory."""
+    lines: T.List[str] = []
+    targets: T.List[dict] = []
+    k = 0
+
+    def add(kind: str, name: str, default: T.Optional[bool], cell: str, **kw: T.Any) -> None:
+        t = {'id': f'{prefix}{len(targets)}', 'kind': kind, 'name': name, 'dir': d, 'sp': sp, 'default': default,
+             'cell': cell}
+        t.update(kw)
+        targets.append(t)
+    for bbd in TRI:
+        for inst in TRI:
+            for stale in (None, True):
+                k += 1
+                multi = k % 3 == 0
+                name = f'{prefix}c{k}'
+                outs = [f'{name}.o1', f'{name} o$2'] if multi else [f'{name}.out']
+                kw = ['output: ' + (mlist([mstr(o) for o in outs]) if multi else mstr(outs[0])),
+                      "command: [py, '-c', 'pass']"]
+                kw += _kw_bool('build_by_default', bbd) + _kw_bool('install', inst)
+                if inst:
+                    kw.append('install_dir: ' + (mlist(["'share/dm'", 'false']) if multi and k % 2 else "'share/dm'"))
+                kw += _kw_bool('build_always_stale', stale)
+                lines.append(f"custom_target({mstr(name)}, {', '.join(kw)})")
+                add('custom', name, documented_default('custom_target', bbd, inst),
+                    f'custom_target/bbd={bbd}/install={inst}/stale={stale}', outputs=outs)
+    for ba, bbd, inst in ((True, None, None), (True, None, True), (False, None, None), (False, None, True),
+                          (True, False, None), (False, True, None)):
+        k += 1
+        name = f'{prefix}c{k}'
+        kw = [f"output: {mstr(name + '.out')}", "command: [py, '-c', 'pass']"]
+        kw += _kw_bool('build_always', ba) + _kw_bool('build_by_default', bbd) + _kw_bool('install', inst)
+        if inst:
+            kw.append("install_dir: 'share/dm'")
+        lines.append(f"custom_target({mstr(name)}, {', '.join(kw)})")
+        add('custom', name, documented_default('custom_target', bbd, inst, ba),
+            f'custom_target/build_always={ba}/bbd={bbd}/install={inst}', outputs=[name + '.out'])
+    for func, kind, bbd, inst in build_target_cells:
+        k += 1
+        name = f'{prefix}b{k}'
+        kw = _kw_bool('build_by_default', bbd) + _kw_bool('install', inst)
+        src = 'm.c' if kind == 'exe' else 'l.c'
+        lines.append(f"{func}({', '.join([mstr(name), mstr(src)] + kw)})")
+        add(kind, name, documented_default(func, bbd, inst), f'{func}/bbd={bbd}/install={inst}')
+    return lines, targets
+
+
 class Item:
     """One generated target."""
 
